@@ -41,6 +41,15 @@ inductive StopOp where
   | sinkStop           -- `self._sink.stop()`
   deriving DecidableEq, Repr
 
+/-- statements of the `while True:` loop of `Handler._queued_writer` -/
+inductive WorkerOp where
+  | get                -- `message = queue.get()`
+  | breakIfNone        -- `if message is None: break`
+  | breakIfFalsy       -- `if not message: break`  (true of `None` AND of a message whose text is empty)
+  | confirmIfTrue      -- `if message is True: self._confirmation_event.set(); continue`
+  | write              -- `with lock: self._sink.write(message)` (errors are reported, the loop goes on)
+  deriving DecidableEq, Repr
+
 /-- statements of the per-handler loop body of `Logger.remove` -/
 inductive RemoveOp where
   | unregister         -- pop from the handlers dict, recompute `min_level`, publish the new dict
